@@ -92,6 +92,7 @@ def handle (line : String) : String :=
   | ["CRB", x] => ClockRate.handleCRB x
   | "PP" :: args => PerfCalc.handlePP args
   | ["MSKILL", rate, cols, take, objs] => SkillWire.handleMSKILL rate cols take objs
+  | "PIPE" :: "osuc" :: args => PipelineCatch.Wire.handlePIPEOC args
   | "PIPE" :: "osub" :: args => PipelineBytes.Wire.handlePIPEOB args
   | "PIPE" :: "catchb" :: args => PipelineBytes.Wire.handlePIPECB args
   | ["PIPE", "maniax", bytes, flags, rate, take] => PipelineManiaMods.handlePIPEx bytes flags rate take
